@@ -17,4 +17,7 @@ def run(prog, rep):
     rep.attempt(lambda: M.repoint_later(ct, rep))
     rep.attempt(lambda: M.shift_loop(ct, rep))
     rep.attempt(lambda: M.initial_layout(ct, rep))
+    # the offsets computed above describe the FILE only if every table change is also written to its slot
+    rep.attempt(lambda: M.dirty_entry(ct, rep, rule="table-pairing"))
+    rep.attempt(lambda: M.slot_position(ct, rep, rule="table-pairing/slot"))
     rep.not_decided += ["the arithmetic identity file length = header + table + sum of sizes over concrete histories"]
